@@ -158,15 +158,19 @@ def run(prop, a, seed, t0):
     out_lines = []
     n_viol = 0
     suppressed = 0
+    suppressed_bounded = 0
     replay_dir = os.path.join(ROOT, "replays", prop.id)
 
-    def report_violation(name, payload, witness_text, found_input):
-        nonlocal n_viol, suppressed
+    def report_violation(name, payload, witness_text, found_input, counted=True):
+        nonlocal n_viol, suppressed, suppressed_bounded
         for k in open_known:
             if re.search(k["match"], name + " :: " + witness_text):
                 if k not in known_hits:
                     known_hits.append(k)
-                suppressed += 1
+                if counted:
+                    suppressed += 1
+                else:
+                    suppressed_bounded += 1
                 return
         os.makedirs(replay_dir, exist_ok=True)
         path = os.path.join(replay_dir, safe(name) + ".json")
@@ -190,7 +194,7 @@ def run(prop, a, seed, t0):
     for b in bounded:
         for f in b.get("failures", []):
             payload = dict(property=prop.id, obligation=b["name"], kind="bounded", witness=f)
-            report_violation(b["name"], payload, json.dumps(f, ensure_ascii=False, default=str), True)
+            report_violation(b["name"], payload, json.dumps(f, ensure_ascii=False, default=str), True, counted=False)
     stale_unresolved = []
     for r in stale:
         witness = None
@@ -243,7 +247,7 @@ def run(prop, a, seed, t0):
             solver_time_s=round(solver_time, 2),
             functions_under_contract=functions,
             lemmas=[k for k in lemma_keys],
-            known_findings_suppressed=suppressed,
+            known_findings_suppressed=suppressed + suppressed_bounded,
             known_findings=[k["what"] for k in known_hits],
             bounded=[{k: v for k, v in b.items() if k != "failures"} for b in bounded],
             paper_steps=prop.paper_steps,
